@@ -1,7 +1,11 @@
 # Registrations: property id -> level, engine parts.  (exec'd by ./check)
-reg("C11", "model_checking", [P("buf", "explore")])
+reg("C11", "model_checking", [P("buf", "explore"),
+    # the same exploration without overflow checks or debug assertions: size computations that only a checked build stops
+    P("buf", "explore", profile="verif-rel", name="explore-rel")])
 reg("C13", "exploration", [P("codec", "pnm"), P("codec", "pnm", profile="verif-rel", tiers=("thorough",), name="pnm-rel")])
-reg("C14", "exploration", [P("codec", "obj"), P("codec", "obj", profile="verif-rel", name="obj-rel")])
+reg("C14", "exploration", [P("codec", "obj"), P("codec", "obj", profile="verif-rel", name="obj-rel"),
+    # long runs of skipped lines in a build like the repository's dev profile (the optimiser may turn recursion into a loop)
+    P("codec", "objlong", profile="verif-dev", name="objlong-dev")])
 reg("C16", "exploration", [P("color", "all"), P("color", "all", profile="verif-rel", tiers=("thorough",), name="all-rel"),
     # the float conversions again in the three non-std float configurations (their rem_euclid/floor/abs differ)
     P("fpcfg", "color", package="fpcfg", features="cfg_none", name="color-cfg-none"),
